@@ -319,8 +319,11 @@ type Pairs<'a, T> = box_iter::BoxIter<'a, (T, T)>;
 
 /// Run `self` and `r` and return the cartesian product of their outputs.
 fn cartesian<'a, D: DataT>(l: &'a Id, r: &'a Id, cv: Cv<'a, D>) -> Pairs<'a, ValX<'a, D::V<'a>>> {
-    flat_map_with(l.run(cv.clone()), cv, move |l, cv| {
-        map_with(r.run(cv), l, |r, l| (l, r))
+    flat_map_with(l.run(cv.clone()), cv, move |l, cv| match l {
+        // an error of the left operand is raised whatever the right operand yields
+        // (`f + g` is `f as $x | g as $y | $x + $y`), even if it yields nothing
+        Err(e) => box_once((Err(e.clone()), Err(e))),
+        l => map_with(r.run(cv), l, |r, l| (l, r)),
     })
 }
 
